@@ -179,13 +179,24 @@ func (n *lazyNode) tryAry() bool {
 	return true
 }
 
+// isNull reports whether the node is one of the spellings of null: a decoded
+// null is a nil node, a null supplied by a patch is a node without text, and
+// a copied null is a node whose text is null.
+func (n *lazyNode) isNull() bool {
+	if n == nil {
+		return true
+	}
+
+	if n.which != eRaw {
+		return false
+	}
+
+	return n.raw == nil || bytes.Equal(n.compact(), []byte("null"))
+}
+
 func (n *lazyNode) equal(o *lazyNode) bool {
-	if n == nil || o == nil {
-		// A decoded null is a nil node, a null supplied by a patch is a
-		// node without text.
-		nNull := n == nil || (n.which == eRaw && n.raw == nil)
-		oNull := o == nil || (o.which == eRaw && o.raw == nil)
-		return nNull && oNull
+	if n.isNull() || o.isNull() {
+		return n.isNull() && o.isNull()
 	}
 
 	if n.which == eRaw {
